@@ -56,7 +56,7 @@ LabelsC01 == {"C01_OrderIds", "C01_CsrNames", "C01_CsrSubject", "C01_CsrDigest",
 LabelsC02 == {"C02_CertIsServedChain", "C02_KeyIsCsrKey"}
 LabelsC03 == {"C03_PairOK", "C03_Untouched"}
 LabelsC05 == {"C05_ConfiguredType", "C05_Proof", "C05_HooksBeforeReady", "C05_NoHookWhenValid",
-              "C05_CleanSameData", "C05_PostsConfiguredType", "C05_SolvableIsSolved"}
+              "C05_CleanSameData", "C05_PostsConfiguredType", "C05_SolvableIsSolved", "C10_CleanAfterValidation"}
 LabelsC07 == {"C07_HookFailureFailsAttempt", "C07_ExactlyOnePostOp", "C07_SuccessIffInstalled", "C07_FailureCarriesError",
               "C07_PauseAfterFailure", "C07_Alive", "C07_PostOpReportsResult", "C07_HealthySucceeds"}
 
@@ -180,7 +180,8 @@ FileWritten(ftype, f) ==
 (* digest of the chain it will serve ("none" if it refused).                     *)
 SubjectOK(c) == SeqToSet(c.subject) = SeqToSet(cfg.subject) /\ Len(c.subject) = Len(cfg.subject)
 Finalize(c, issued) ==
-    /\ bad' = Chk("C01_CsrNames", c.names = CfgIds \/
+    /\ bad' = Chk("C10_CleanAfterValidation", cleanDue = <<>>)     \* every validated challenge has had its clean hooks by now
+         \cup Chk("C01_CsrNames", c.names = CfgIds \/
                       (SeqToSet(c.names) = SeqToSet(CfgIds) /\ Len(c.names) = Len(CfgIds)))
          \cup Chk("C01_CsrSubject", SubjectOK(c))
          \cup Chk("C01_CsrDigest", c.digest = IF c.eddsa THEN "none" ELSE cfg.digest)   \* EdDSA signs without a digest
